@@ -403,7 +403,7 @@ Section Outline.
     induction n as [|m IH]; intros s1 s2 o RL DL DG.
     - simpl. split; [reflexivity|]. split; [reflexivity|]. exact I.
     - simpl.
-      rewrite (eval_rel Qtrue _ s1 s2 c RL) by (intros; apply CS; apply in_or_app; auto).
+      rewrite (eval_rel Qtrue Qtrue_refl _ s1 s2 c RL) by (intros; apply CS; apply in_or_app; auto).
       destruct (eval s2 c) as [v|]; [|apply res_rel_err; exact I].
       destruct (Z.eqb v 0).
       + apply (live_sound Qtrue Qtrue_refl m els kk s1 s2 o NCe CE).
@@ -484,7 +484,7 @@ Section Outline.
     induction n as [|m IH]; intros s1 s2 o RL DL DG.
     - simpl. split; [reflexivity|]. split; [reflexivity|]. exact I.
     - simpl.
-      rewrite (eval_rel Qtrue _ s1 s2 c RL) by (intros; apply CS; apply in_or_app; auto).
+      rewrite (eval_rel Qtrue Qtrue_refl _ s1 s2 c RL) by (intros; apply CS; apply in_or_app; auto).
       destruct (eval s2 c) as [v|]; [|apply res_rel_err; exact I].
       destruct (Z.eqb v 0).
       + apply (ZP RG m Mloop mloop kk); try assumption.
@@ -584,7 +584,7 @@ Section Outline.
       apply andb_true_iff in CVm. destruct CVm as [CVa CVb].
       rewrite nocall_single in NCm. simpl in NCm. apply andb_true_iff in NCm.
       destruct NCm as [NCa NCb]. fold (nocall (orig i)) in *. fold (nocall b) in *.
-      rewrite (eval_rel Qtrue _ t1 t2 c RT) by (intros; apply in_or_app; auto).
+      rewrite (eval_rel Qtrue Qtrue_refl _ t1 t2 c RT) by (intros; apply in_or_app; auto).
       destruct (eval t2 c) as [v|]; [|apply res_rel_err; exact I].
       destruct (Z.eqb v 0).
       + apply (live_sound Qtrue Qtrue_refl n b _ t1 t2 o' NCb CVb).
@@ -604,7 +604,7 @@ Section Outline.
       apply andb_true_iff in CVm. destruct CVm as [CVa CVb].
       rewrite nocall_single in NCm. simpl in NCm. apply andb_true_iff in NCm.
       destruct NCm as [NCa NCb]. fold (nocall (orig i)) in *. fold (nocall a) in *.
-      rewrite (eval_rel Qtrue _ t1 t2 c RT) by (intros; apply in_or_app; auto).
+      rewrite (eval_rel Qtrue Qtrue_refl _ t1 t2 c RT) by (intros; apply in_or_app; auto).
       destruct (eval t2 c) as [v|]; [|apply res_rel_err; exact I].
       destruct (Z.eqb v 0).
       + apply (IH RG n (M ++ defs pre) (m ++ mustd pre)); try assumption.
@@ -639,7 +639,7 @@ Section Outline.
       rewrite conv_b_single, conv_s_for in CVm.
       rewrite nocall_single in NCm. simpl in NCm. apply andb_true_iff in NCm. destruct NCm as [NCb NCe].
       fold (nocall (orig lc)) in NCb. fold (nocall els) in NCe.
-      rewrite (eval_rel Qtrue _ t1 t2 e RT) by (intros; apply in_or_app; auto).
+      rewrite (eval_rel Qtrue Qtrue_refl _ t1 t2 e RT) by (intros; apply in_or_app; auto).
       destruct (eval t2 e) as [hi|]; [|apply res_rel_err; exact I].
       eapply (for_sim lc IHlc RG x els _ (M ++ defs pre ++ x :: defs (plug lc [call])) (m ++ mustd pre)); try eassumption.
       + simpl in HC. rewrite <- app_assoc. exact HC.
@@ -675,7 +675,7 @@ Section Outline.
       rewrite conv_b_single, conv_s_for in CVm.
       rewrite nocall_single in NCm. simpl in NCm. apply andb_true_iff in NCm. destruct NCm as [NCb NCe].
       fold (nocall b) in NCb. fold (nocall (orig lc)) in NCe.
-      rewrite (eval_rel Qtrue _ t1 t2 e RT) by (intros; apply in_or_app; auto).
+      rewrite (eval_rel Qtrue Qtrue_refl _ t1 t2 e RT) by (intros; apply in_or_app; auto).
       destruct (eval t2 e) as [hi|]; [|apply res_rel_err; exact I].
       eapply (forE_sim lc IHlc RG x b _ (M ++ defs pre ++ x :: defs b) (m ++ mustd pre)); try eassumption.
       + intros y Hy. apply in_or_app. right. apply in_or_app. right. exact Hy.
